@@ -28,6 +28,153 @@ pub fn pool() -> Vec<TlSpec> {
     ]
 }
 
+
+// ------------------------------------------------------------------------------------------------
+// Metadata family: arbitrary component metadata (incl. undefined cycle durations) through stub
+// components and nested merged timelines.
+
+#[derive(Clone, Debug)]
+struct Stub {
+    cycle: Option<f32>,
+    delay: f32,
+    duration: f32,
+    repeat: Repeat,
+    tag: i32,
+}
+
+impl Timeline for Stub {
+    type Target = P;
+    fn cycle_duration(&self) -> Option<f32> {
+        self.cycle
+    }
+    fn delay(&self) -> f32 {
+        self.delay
+    }
+    fn duration(&self) -> f32 {
+        self.duration
+    }
+    fn repeat(&self) -> Repeat {
+        self.repeat
+    }
+    fn start_with(&mut self, values: &P) {
+        self.tag += values.k;
+    }
+    fn update(&self, values: &mut P, _time: f32) {
+        // order-sensitive overlay marker
+        values.k = values.k.wrapping_mul(31).wrapping_add(self.tag);
+    }
+}
+
+fn stub_pool() -> Vec<Stub> {
+    let mut v = vec![];
+    let mut tag = 1;
+    for cycle in [None, Some(1.0f32), Some(2.0)] {
+        for delay in [0.0f32, 0.5, 2.0] {
+            for duration in [1.0f32, 3.0, f32::INFINITY] {
+                for repeat in [Repeat::None, Repeat::Times(0), Repeat::Times(3), Repeat::Times(u32::MAX), Repeat::Infinite] {
+                    tag += 1;
+                    v.push(Stub { cycle, delay, duration, repeat, tag });
+                }
+            }
+        }
+    }
+    v
+}
+
+fn rep_of(r: Repeat) -> Rep {
+    match r {
+        Repeat::None => Rep::None,
+        Repeat::Times(n) => Rep::Times(n),
+        Repeat::Infinite => Rep::Infinite,
+    }
+}
+
+/// Checks the aggregate metadata of `m` against the flat list of leaf stubs `leaves`.
+fn check_stub_meta<T: Timeline<Target = P>>(m: &MergedTimeline<T>, leaves: &[&Stub], label: &str, rank: u64, sink: &mut VSink) {
+    let desc = || json!({"family": label, "components": leaves.iter().map(|s| format!("{s:?}")).collect::<Vec<_>>()});
+    let want_delay = leaves.iter().map(|s| s.delay).fold(f32::INFINITY, f32::min);
+    if m.delay().to_bits() != want_delay.to_bits() {
+        sink.add(&format!("{label}:delay-not-minimum"), rank, || (format!("delay() = {} but smallest component delay is {}", m.delay(), want_delay), desc()));
+    }
+    let want_dur = leaves.iter().map(|s| s.duration).fold(0.0f32, f32::max);
+    if m.duration().to_bits() != want_dur.to_bits() {
+        sink.add(&format!("{label}:duration-not-maximum"), rank, || (format!("duration() = {} but largest component duration is {}", m.duration(), want_dur), desc()));
+    }
+    let want_rep = leaves.iter().map(|s| rep_of(s.repeat)).max_by_key(|r| rep_rank(*r)).unwrap();
+    if rep_rank(rep_of(m.repeat())) != rep_rank(want_rep) {
+        sink.add(&format!("{label}:repeat-not-largest"), rank, || (format!("repeat() = {:?} but largest component repeat is {:?}", m.repeat(), want_rep), desc()));
+    }
+    let c0 = leaves[0].cycle;
+    let want_cycle = if c0.is_some() && leaves.iter().all(|s| s.cycle == c0) { c0 } else { None };
+    if m.cycle_duration() != want_cycle {
+        sink.add(&format!("{label}:cycle-duration"), rank, || (format!("cycle_duration() = {:?}, expected {:?} (a cycle duration only when all components agree on one)", m.cycle_duration(), want_cycle), desc()));
+    }
+    // overlay order: components applied in list order
+    let mut got = P { k: 1, ..P::default() };
+    m.update(&mut got, 0.5);
+    let mut want = P { k: 1, ..P::default() };
+    for s in leaves {
+        s.update(&mut want, 0.5);
+    }
+    if got.k != want.k {
+        sink.add(&format!("{label}:overlay-order"), rank, || ("components not applied in list order".into(), desc()));
+    }
+}
+
+fn stub_family(thorough: bool) -> (VSink, u64) {
+    let pool = stub_pool();
+    let np = pool.len();
+    let maxlen = if thorough { 3 } else { 2 };
+    // flat lists: all lists of length 1..=maxlen (quick: plus length 3 over every 5th stub)
+    let sparse: Vec<usize> = (0..np).step_by(5).collect();
+    let acc = par_fold(
+        np,
+        || (VSink::new(), 0u64),
+        |i, acc| {
+            let mut lists: Vec<Vec<usize>> = vec![vec![i]];
+            for j in 0..np {
+                lists.push(vec![i, j]);
+                if maxlen >= 3 {
+                    for k in 0..np {
+                        lists.push(vec![i, j, k]);
+                    }
+                }
+            }
+            if maxlen < 3 {
+                for &j in &sparse {
+                    for &k in &sparse {
+                        lists.push(vec![i, j, k]);
+                    }
+                }
+            }
+            for l in &lists {
+                acc.1 += 1;
+                let leaves: Vec<&Stub> = l.iter().map(|&x| &pool[x]).collect();
+                let m = MergedTimeline::of(leaves.iter().map(|s| (*s).clone()).collect::<Vec<_>>());
+                let rank = (3u64 << 60) | (l.len() as u64) << 40 | (i as u64) << 20 | acc.1 & 0xfffff;
+                check_stub_meta(&m, &leaves, "stub-list", rank, &mut acc.0);
+            }
+            // nested: [[i, j], [k]] and [[i], [j, k]] over the sparse pool
+            for &j in &sparse {
+                for &k in &sparse {
+                    acc.1 += 2;
+                    let leaves = vec![&pool[i], &pool[j], &pool[k]];
+                    let rank = (4u64 << 60) | (i as u64) << 20 | (j as u64) << 10 | k as u64;
+                    let n1 = MergedTimeline::of([MergedTimeline::of([pool[i].clone(), pool[j].clone()]), MergedTimeline::of([pool[k].clone()])]);
+                    check_stub_meta(&n1, &leaves, "nested-merged", rank, &mut acc.0);
+                    let n2 = MergedTimeline::of([MergedTimeline::of([pool[i].clone()]), MergedTimeline::of([pool[j].clone(), pool[k].clone()])]);
+                    check_stub_meta(&n2, &leaves, "nested-merged", rank, &mut acc.0);
+                }
+            }
+        },
+        |a, b| {
+            a.0.merge(b.0);
+            a.1 += b.1;
+        },
+    );
+    acc
+}
+
 #[derive(Default)]
 struct Acc {
     sink: VSink,
@@ -210,13 +357,17 @@ pub fn run(run: Run) -> ! {
             }
         },
     );
+    let mut acc = acc;
+    let (ssink, stub_lists) = stub_family(run.is_thorough());
+    acc.sink.merge(ssink);
+    acc.lists += stub_lists;
     let mut cov = Map::new();
     cov.insert("states".into(), json!(acc.lists));
     cov.insert("transitions".into(), json!(acc.evals));
     cov.insert("traces_validated_against_impl".into(), json!(acc.evals));
     cov.insert("evaluations".into(), json!(acc.evals));
     cov.insert("distinct_nontrivial".into(), json!(acc.lists - 1));
-    cov.insert("rule".into(), json!(format!("ALL lists of length 0..={maxlen} over a pool of {np} component timelines (property sets {{a}},{{k}},{{a,k}},{{}}; delays 0..1; cycles 1/2,1,2,4; repeat None/Times 0,1,2,3/Infinite/Times(u32::MAX, metadata only); reverse on/off); oracle: merged.update == components applied in order (bit-equal; fresh and dirty targets; union of the components' time grids), same after start_with, all orders agree when property sets are disjoint ({} permuted lists), delay=min, duration=max (inf if any), repeat=largest in None<Times n<Infinite, cycle_duration=Some iff all equal, MergedTimeline::from(t) == t; non-trivial = non-empty lists", acc.disjoint_orders)));
+    cov.insert("rule".into(), json!(format!("ALL lists of length 0..={maxlen} over a pool of {np} component timelines (property sets {{a}},{{k}},{{a,k}},{{}}; delays 0..1; cycles 1/2,1,2,4; repeat None/Times 0,1,2,3/Infinite/Times(u32::MAX, metadata only); reverse on/off); oracle: merged.update == components applied in order (bit-equal; fresh and dirty targets; union of the components' time grids), same after start_with, all orders agree when property sets are disjoint ({} permuted lists), delay=min, duration=max (inf if any), repeat=largest in None<Times n<Infinite, cycle_duration=Some iff all equal, MergedTimeline::from(t) == t; plus a metadata family of {} lists over 135 stub components (cycle undefined/1/2 x delay 0/0.5/2 x duration 1/3/inf x repeat None/Times 0/Times 3/Times(u32::MAX)/Infinite): flat lists and nested merged timelines [[a,b],[c]], [[a],[b,c]] with the same oracle; non-trivial = non-empty lists", acc.disjoint_orders, stub_lists)));
     cov.insert("exhaustive".into(), json!(true));
     cov.insert("metadata_checks".into(), json!(acc.meta_checks));
     cov.insert("distinct_observed_outcomes_capped".into(), json!(acc.outcomes.len()));
